@@ -278,6 +278,22 @@ def includeStmtHoisted (cost limit : Nat) (ignoreMissing : Bool) (choices : List
                              outerDepth := res.2.1.outerDepth - cost }, res.2.2)
   go choices 0
 
+/-- `State::with_auto_escape` (vm/state.rs; caller: the builtin `escape` filter when the template's
+format is a custom one): nothing to do when the mode is already the wanted one, otherwise the mode
+is replaced, `f` runs, and the old mode is put back — unconditionally, before the result is
+returned -/
+def withAutoEscape (ae : Nat) (f : Body) (s : St) (o : Out) : Res × St × Out :=
+  if s.autoEscape = ae then f s o
+  else
+    let res := f { s with autoEscape := ae } o
+    (res.1, { res.2.1 with autoEscape := s.autoEscape }, res.2.2)
+
+/-- the single-exit variant whose restore is guarded by `old == auto_escape`: the mode is put back
+exactly when there is nothing to put back -/
+def withAutoEscapeInverted (ae : Nat) (f : Body) (s : St) (o : Out) : Res × St × Out :=
+  let res := f { s with autoEscape := ae } o
+  (res.1, (if s.autoEscape = ae then { res.2.1 with autoEscape := s.autoEscape } else res.2.1), res.2.2)
+
 /-- the restored part of the state -/
 def Same (a b : St) : Prop :=
   a.frames = b.frames ∧ a.outerDepth = b.outerDepth ∧ a.instructions = b.instructions ∧
